@@ -100,6 +100,8 @@ def predicate(S, st, who, where):
     if L.block[0] == 'poll' and L.block[1]():
         return  # the control pipe is readable: it will wake
     pending = [k for k, v in st['fired'].items() if v == 'returned' and k not in st['seen']]
+    if pending and st.get('bounded_wait_is_fine') and L.block[2] is not None:
+        return      # a Timer is pending, not an event: the loop may sleep, but not without limit
     if pending:
         S.violate('LOST_WAKEUP', {'loop_blocked_in': L.block[0], 'wait_timeout': L.block[2], 'undispatched_events_whose_fire_returned': pending[:5],
                                   'detected_at': where, 'by': who})
@@ -111,6 +113,7 @@ def run_schedule(scn, plan=(), seed=None, switch_prob=0.0, record=False):
     S = sched.new_sched()
     app, st = build(scn, S)
     st['seen'] = set()
+    st['bounded_wait_is_fine'] = scn.get('via') == 'timer'
     nf, k = scn['firers'], scn['events']
 
     def loop():
@@ -121,7 +124,12 @@ def run_schedule(scn, plan=(), seed=None, switch_prob=0.0, record=False):
         def f():
             for seq in range(k):
                 st['fired'][(i, seq)] = 'called'
-                app.fire(Event.create('ext', i, seq))
+                if scn.get('via') == 'timer':
+                    # the event is not fired: a Timer that will fire it is created and registered from this thread (C09)
+                    from circuits import Timer
+                    Timer(scn.get('interval', 0.01), Event.create('ext', i, seq)).register(app)
+                else:
+                    app.fire(Event.create('ext', i, seq))
                 st['fired'][(i, seq)] = 'returned'
                 st['seen'] = set(st['dispatched'])
                 predicate(S, st, 'F%d' % i, 'fire-return')
